@@ -116,6 +116,25 @@ pub fn wrapping_nn_shifts(
     crate::rtree_nn::wrapping_nn_iter(&rtree, loc, width, dimensionality).take(take).collect()
 }
 
+/// `Space::new` + `add_parts` + `knn`: the k nearest other particles of every particle (by particle id).
+pub fn space_knn(anchor: DVec3, width: DVec3, max_cell_width: f64, positions: &[DVec3], k: usize) -> Vec<Vec<usize>> {
+    let mut space = crate::space::Space::new(anchor, width, max_cell_width);
+    space.add_parts(positions);
+    space.knn(k)
+}
+
+/// The grid of `Space::new`: `(loc, width)` of every cell, in storage order.
+pub fn space_cells(anchor: DVec3, width: DVec3, max_cell_width: f64) -> Vec<(DVec3, DVec3)> {
+    crate::space::Space::new(anchor, width, max_cell_width).verif_cells()
+}
+
+/// The two bounding-sphere solvers: `(center, radius)`.
+pub fn bounding_sphere(points: &[DVec3], exact: bool) -> (DVec3, f64) {
+    use crate::bounding_sphere::{BoundingSphereSolver, Epos6, Welzl};
+    let s = if exact { Welzl::bounding_sphere(points) } else { Epos6::bounding_sphere(points) };
+    (s.center, s.radius)
+}
+
 #[cfg(kani)]
 #[path = "/verif/kani/mod.rs"]
 pub(crate) mod kani_harnesses;
